@@ -288,6 +288,21 @@ CLAIMS["C11"] = dict(
 NOT_YET = {}
 
 
+# later strengthenings (see DESIGN.md 6.3), stated as additions to the texts above
+CLAIMS["C02"]["text"] += (" A further save is taken before any query and must equal the first one after the battery (saves interleaved with "
+                          "read-only queries); further inputs: the samples with every mapped skin-partition triangle rotated once and with one block "
+                          "type relabelled unknown.")
+CLAIMS["C02"]["note"] += (" The one by-design effect of a query on a later save (strip partitions converted by GetShapePartitions, Skinned_OB) is a "
+                          "listed known finding.")
+CLAIMS["C08"]["text"] += (" Quick tier: every (type, version) pair, all three population modes for a third of the types and one rotating mode for "
+                          "the others.")
+CLAIMS["C09"]["text"] += (" Also enumerated: two fixed interleaved meshes x every subset of <= 2 indices, and skinned shapes with two partitions "
+                          "built from alternate triangles whose cached shape-indexed triangles are live at the deletion (clause "
+                          "PartitionTrueTrianglesAgree).")
+CLAIMS["C11"]["text"] += " The source may be edited or saved once before it is copied (constant Pre)."
+CLAIMS["C12"]["text"] += " The converted triangle set is also compared with the set the source strips define by IndexOps!StripTris."
+
+
 def main():
     props = [json.loads(l) for l in open(os.path.join(ROOT, "properties.jsonl"))]
     commits = subprocess.run(["git", "-C", "/repo", "log", "--format=%H %s", "32497ec..HEAD"], stdout=subprocess.PIPE).stdout.decode().splitlines()
